@@ -535,7 +535,7 @@ pub fn run(rec: &mut Rec) {
     // deviation targets: the first K dynamic instances of every distinct library loop (join site)
     let per_site = if rec.thorough() { 4 } else { 1 };
     let pools: Vec<usize> = if rec.thorough() { vec![2, 3, 4, 5] } else { vec![2, 3] };
-    rec.scope(format!("schedule exploration under the simulated rayon scheduler: {} items x simulated pool sizes {:?}; default tape, then every tape deviating at one join ({} joins; the first {} dynamic instances of every distinct library loop - thorough: plus, for the pool of 2, the first instance of every loop of the dependencies with the choices {swap, both migrated, all} - in every phase (operation) of the flow) by each of the 7 non-default (order, migrated-a, migrated-b) choices{}", ITEMS.len(), pools, if rec.thorough() { "all" } else { "library-owned" }, per_site, if rec.thorough() { "; pairs of owned joins (k = 2, pool of 2)" } else { "" }));
+    rec.scope(format!("schedule exploration under the simulated rayon scheduler: {} items x simulated pool sizes {:?}; default tape, then every tape deviating at one join ({} joins; the first {} dynamic instances of every distinct library loop - thorough: plus, for the pool of 2, the first instance of every loop of the dependencies with the choices swap / both migrated / all - in every phase (operation) of the flow) by each of the 7 non-default (order, migrated-a, migrated-b) choices{}", ITEMS.len(), pools, if rec.thorough() { "all" } else { "library-owned" }, per_site, if rec.thorough() { "; pairs of owned joins (k = 2, pool of 2)" } else { "" }));
     for item in ITEMS.iter() {
         let mut want: Option<BTreeMap<String, String>> = None;
         for threads in pools.iter().copied() {
